@@ -674,6 +674,25 @@ func (g *gen) frameSeq(spec *Spec) {
 	}
 	for t := 0; t < nt; t++ {
 		var ops []Op
+		if g.w.Chance(1, 3) {
+			// a pipeline: the result of one evaluation becomes the registered
+			// variable $prev of another expression; later evaluations (of
+			// either) must not change it
+			d := spec.Docs[g.w.Intn(nd)].ID
+			src := resultPrograms[g.w.Intn(len(resultPrograms))]
+			ops = append(ops,
+				Op{Kind: "compile", Expr: "rs", Text: src, Family: "pipeline", Exts: true},
+				Op{Kind: "eval", Expr: "rs", Doc: d}, // operation 1: its result is registered below
+				Op{Kind: "compile", Expr: "rt", Text: prevPrograms[g.w.Intn(len(prevPrograms))], Family: "pipeline", Exts: true},
+				Op{Kind: "eregresult", Expr: "rt", Version: 1})
+			for k := g.w.Range(1, 3); k > 0; k-- {
+				if g.w.Chance(1, 2) {
+					ops = append(ops, Op{Kind: "eval", Expr: "rt", Doc: d})
+				} else {
+					ops = append(ops, Op{Kind: "eval", Expr: "rs", Doc: d})
+				}
+			}
+		}
 		n := g.w.Range(1, 6)
 		for i := 0; i < n; i++ {
 			e := spec.Exprs[g.w.Intn(ne)]
@@ -685,6 +704,23 @@ func (g *gen) frameSeq(spec *Spec) {
 		}
 		spec.Tasks = append(spec.Tasks, ops)
 	}
+}
+
+// resultPrograms return containers (often aliasing the input); prevPrograms
+// work on such a value registered as $prev.
+var resultPrograms = []string{
+	`$append(nums, 5)`, `$append(s, "x")`, `items`, `$sort(nums)`, `one`, `$ ~> |items|{"r": 1}|`, `nums[$ > -1]`,
+	`$append(page, 99)`, `s`, `$merge([one])`, `[nums, s]`, `items[q >= 0]`, `$reverse(s)`, `$distinct(dups)`,
+	`{"a": nums, "b": one}`, `$map(items, function($i){$i})`, `$zip(nums, s)`, `$filter(s, function($v){true})`,
+	`$append(nums, nums)`, `$append(dups, "t")`, `items.p`, `$spread(one)`, `$sift(one, function($v){true})`,
+}
+
+var prevPrograms = []string{
+	`$append($prev, 1)`, `$append($prev, "y")`, `$sort($prev)`, `$reverse($prev)`, `$distinct($prev)`, `$count($prev)`,
+	`$prev ~> |$|{"z": 1}|`, `$prev[0] ~> |$|{"q": 9}|`, `$map($prev, function($v){$v})`, `$zip($prev, $prev)`,
+	`$merge([$prev, {"k": 1}])`, `$string($prev)`, `$append($prev, $prev)`, `$prev[$ != 2]`, `$prev[true][$ != 2]`,
+	`$sort($prev, function($a, $b){$string($a) > $string($b)})`, `$ ~> |$prev|{"w": 1}|`, `$append($prev, $$.nums)`,
+	`$prev.a ~> $append(7)`, `$each($prev, function($v){$v})`, `$prev ~> $append(3) ~> $append(4)`,
 }
 
 // ---- C19: clock ------------------------------------------------------------------
